@@ -331,7 +331,9 @@ func c09Check(cs c09Case) (out core.Outcome, applicable bool, remote int) {
 		dp := decorator.NewDecoratorWithImports(chk.Fset, c09Locals[cs.Local].Given, gotypes.New(chk.Info.Uses))
 		var node dst.Node
 		var nerr error
-		if p := guard(func() { node, nerr = dp.DecorateNode(&ast.Package{Name: "main", Files: map[string]*ast.File{"a.go": af}}) }); p != "" || nerr != nil {
+		if p := guard(func() {
+			node, nerr = dp.DecorateNode(&ast.Package{Name: "main", Files: map[string]*ast.File{"a.go": af}})
+		}); p != "" || nerr != nil {
 			return fail("package-node-fails", "DecorateNode(*ast.Package): panic %q error %v", p, nerr)
 		}
 		pf := node.(*dst.Package).Files["a.go"]
